@@ -168,9 +168,10 @@ theorem skip_safe (d : Dec) (hi : d.Inv) (tag wt : Nat) :
   by_cases h : d.off ≥ d.len
   · simp [h, hi]
   · simp only [h, if_false]
-    have hb : d.off - sizeOfTagKey tag ≤ d.len := by unfold Dec.Inv at hi; omega
+    have hb : (if d.ke = d.off ∧ d.ke > d.ks then d.ks else d.off - sizeOfTagKey tag) ≤ d.len := by
+      unfold Dec.Inv at hi; split <;> omega
     have h1 := skipCheck_safe d tag wt _ (sizeOfTagKey tag) hb
-    cases hc : d.skipCheck tag wt (d.off - sizeOfTagKey tag) (sizeOfTagKey tag) with
+    cases hc : d.skipCheck tag wt (if d.ke = d.off ∧ d.ke > d.ks then d.ks else d.off - sizeOfTagKey tag) (sizeOfTagKey tag) with
     | err => exact ⟨by simp, hi, rfl⟩
     | panic => exact absurd hc h1
     | ok u =>
